@@ -243,6 +243,15 @@ def mgr_state(res):
                 if late:
                     ctx.append("late-worker-in-broken-executor")
                     break
+    snap = res.sched.snapshot or []
+    for t in snap:
+        if t["what"] == "waitpid" and "_exit_function" in t["where"] and t["role"].endswith("-main"):
+            # a process at interpreter exit joins a child worker that nobody manages: its executor has live
+            # workers but no manager thread (submit() raised in the middle of spawning them)
+            kids = [p for p in res.kernel.procs.values() if p.alive and p.role == "worker" and p.ppid == t["pid"]]
+            if kids and not any(u["pid"] == t["pid"] and u["role"] == "manager" for u in snap):
+                ctx.append("%s-exit-joins-unmanaged-worker" % ("root" if t["pid"] == 100 else "process"))
+                break
     if not any(t["pid"] == 100 and t["role"] == "manager" for t in (res.sched.snapshot or [])):
         for i in res.obs.executors.values():
             if i["flags"].shutdown and any(res.kernel.procs[pid].alive for pid in i["processes"]):
